@@ -108,12 +108,14 @@ class World:
     """per-oracle-run facts shared by all samples: allocation sites of objects"""
     def __init__(self):
         self.site = {}
+        self.size = {}
         self.next_obj = 1
         self.next_wild = 0
 
-    def fresh(self, site):
+    def fresh(self, site, size=None):
         o = self.next_obj; self.next_obj += 1
         self.site[o] = site
+        self.size[o] = size
         return o * OBJ
 
     def wild(self):
@@ -167,6 +169,15 @@ def region_kind(g):
     return g[0]
 
 
+def in_bounds(w, s, a, sz):
+    """[a, a + sz) lies inside the memory object a points into (sz = c:<n> | v:<int var>)"""
+    o = w.obj(a) if a != 0 else None
+    if o is None or w.size.get(o) is None:
+        return False
+    n = int(sz[2:]) if sz[0] == "c" else s.v[sz[2:]]
+    return (a - o * OBJ) + n <= w.size[o]
+
+
 class Ctx:
     def __init__(self, hdr):
         self.params = hdr[1]
@@ -191,8 +202,8 @@ def step(cx, w, r0, s, op, k):
             del s.cells[key]
         return [s]
     if op == "mk":
-        p = k.next(); g = k.next(); site = k.nexti(); k.next()
-        a = w.fresh(site)
+        p = k.next(); g = k.next(); site = k.nexti(); sz = k.next()
+        a = w.fresh(site, int(sz[2:]) if sz[0] == "c" else s.v[sz[2:]])
         s.v[p] = a; s.tg[p] = frozenset()
         s.created[g] = s.created.get(g, frozenset()) | {a}
         return [s]
@@ -307,6 +318,11 @@ def step(cx, w, r0, s, op, k):
         if (g, a) in s.cells:
             val, tg = s.cells[(g, a)]
             s.cells[(g, a)] = (val, tg | {t})
+        return [s]
+    if op == "isderef":
+        b = k.next(); g = k.next(); p = k.next(); sz = k.next()
+        s.v[b] = 1 if in_bounds(w, s, s.v[p], sz) else 0
+        s.tg[b] = frozenset()
         return [s]
     if op == "nothastag":
         b = k.next(); g = k.next(); p = k.next(); t = k.nexti()
@@ -442,9 +458,12 @@ def parse_state(a, cx):
         for n, x in zip(names, parts):
             st[key][n] = parse_itv(x)
     parts = m.group(3).split("|") if m.group(3) else []
+    st["PO"] = {}
     for n, x in zip(cx.P, parts):
         f = x.split(";")
         st["P"][n] = (parse_itv(f[0]), f[1], parse_set(f[2]))
+        if len(f) >= 5 and f[3].startswith("o") and f[4].startswith("s"):
+            st["PO"][n] = (parse_itv(f[3][1:]), parse_itv(f[4][1:]))
     parts = m.group(4).split("|") if m.group(4) else []
     for n, x in zip(cx.G, parts):
         f = x.split(";")
@@ -497,6 +516,13 @@ def check_state(cx, w, st, samples, where, line):
                 o = w.obj(a)
                 if o is not None and w.site[o] not in sites:
                     return "%s: SITES get_allocation_sites(%s) = %s but a concrete execution has %s allocated at site %d (%s)" % (where, p, sorted(sites), p, w.site[o], brief(s))
+            if p in st.get("PO", {}) and a != 0 and w.obj(a) is not None and w.size.get(w.obj(a)) is not None:
+                o = w.obj(a)
+                oi, si = st["PO"][p]
+                if not in_itv(oi, a - o * OBJ):
+                    return "%s: OFFSET the offset ghost variable of %s is %s but a concrete execution has %s at offset %d of its memory object (%s)" % (where, p, fmt_itv(oi), p, a - o * OBJ, brief(s))
+                if not in_itv(si, w.size[o]):
+                    return "%s: SIZE the size ghost variable of %s is %s but a concrete execution has %s in a memory object of size %d (%s)" % (where, p, fmt_itv(si), p, w.size[o], brief(s))
         for g in cx.G:
             if g not in st["G"]:
                 continue
@@ -559,7 +585,14 @@ def oracle(line, ans, rng=None, want=None):
         op = k.next()
         r = k.nexti()
         where = "step %d (%s)" % (idx, " ".join(o))
-        if op in ("q_leq", "q_entails", "q_csts"):
+        if op in ("q_leq", "q_entails", "q_csts", "q_deref"):
+            if op == "q_deref" and a == "true":
+                p = k.next(); sz = k.next()
+                for s in regs[r]:
+                    x = s.v[p]
+                    if x != 0 and w.obj(x) is not None and w.size.get(w.obj(x)) is not None and not in_bounds(w, s, x, sz):
+                        return "%s: DEREF is_dereferenceable answered true but a concrete execution has %s at offset %d of a memory object of size %d (%s) in: %s" % (
+                            where, p, x - w.obj(x) * OBJ, w.size[w.obj(x)], brief(s), line)
             if op == "q_entails" and a == "true":
                 c = p_cst(k)
                 for s in regs[r]:
@@ -607,7 +640,7 @@ def oracle(line, ans, rng=None, want=None):
 
 
 def kind_of(w):
-    m = re.search(r": (BOTTOM|VALUE|NULL|NONNULL|SITES|TAGS|ENTAILS|CRASH) ", w)
+    m = re.search(r": (BOTTOM|VALUE|NULL|NONNULL|SITES|TAGS|ENTAILS|CRASH|OFFSET|SIZE|DEREF) ", w)
     return m.group(1) if m else "?"
 
 
@@ -647,12 +680,13 @@ def gen_case(rng, profile="model", params=None, opts=None):
     opts = opts or {}
     params = params or rng.choice(PARAMS)
     full = profile == "full"
+    m2 = profile == "model2"          # the fragment of Dom/RegionCore2.v
     nregs = rng.randint(2, 3)
     ni = rng.randint(2, 3); nb = 1 if not full else rng.randint(1, 2)
     np_ = rng.randint(2, 5); nR = rng.randint(1, 3); nQ = rng.randint(0, 2)
     if opts.get("shape"):
         nregs, ni, nb, np_, nR, nQ = opts["shape"][:6]
-    nU = rng.choice([0, 1, 1, 2]) if full else 0
+    nU = rng.choice([0, 1, 1, 2]) if (full or m2) else 0
     if opts.get("nU") is not None:
         nU = opts["nU"]
     I = ["i%d" % k for k in range(ni)]; B = ["b%d" % k for k in range(nb)]
@@ -710,7 +744,11 @@ def gen_case(rng, profile="model", params=None, opts=None):
         weights.update({"rcast": 3 if U else 0, "r2i": 3, "i2r": 3, "nothastag": 2 if params[2] == "1" else 0, "bassign": 2, "bassign_ref": 3,
                         "bassume": 2, "assume_nref": 3, "nonnull": 2, "forget": 2, "project": 1, "select": 1,
                         "widenthr": 1, "q_entails": 2})
-    if not full and params[3] == "1":
+    if m2:
+        weights.update({"rcast": 4 if U else 0, "r2i": 3, "i2r": 3, "assume_nref": 3, "nonnull": 2, "forget": 2, "project": 1,
+                        "isderef": 2 if params[3] == "1" else 0, "q_deref": 4 if params[3] == "1" else 0,
+                        "init": 2, "havoc": 3, "meet": 2, "narrow": 1})
+    if not (full or m2) and params[3] == "1":
         # the offset / size ghost variables of is_dereferenceable are not modelled: leave out the
         # modelled operations that can observe them (meet, narrowing; reference equalities above)
         weights.update({"meet": 0, "narrow": 0})
@@ -723,6 +761,8 @@ def gen_case(rng, profile="model", params=None, opts=None):
         g_ = gr[r]
         if pick == "init":
             c = [g for g in G if g not in g_.inited]
+            if m2 and rng.random() < 0.3:
+                c = list(G)                   # a second region_init: an error unless the count allows it
             if not c:
                 continue
             g = rng.choice(c); ops.append("init %d %s" % (r, g)); g_.inited.add(g)
@@ -790,11 +830,18 @@ def gen_case(rng, profile="model", params=None, opts=None):
             else:
                 p, q = rng.choice(P), rng.choice(P)
                 rels = ["eq", "eq", "ne", "lt", "le", "gt", "ge"]
-                if not full and params[3] == "1":
+                if not (full or m2) and params[3] == "1":
                     rels = ["ne", "lt", "le", "gt", "ge"]   # offset/size ghost variables are not modelled
                 ops.append(pre + "b %s %s %s %d" % (rng.choice(rels), p, q, rng.choice([0, 0, 0, 4, -4])))
         elif pick == "nonnull":
             ops.append("nonnull %d %s" % (r, rng.choice(P)))
+        elif pick in ("isderef", "q_deref"):
+            g = some_region(r); p = ref_in(r, g)
+            sz = "c:%d" % rng.choice([1, 4, 8, 12, 16, 17]) if rng.random() < 0.8 else "v:%s" % rng.choice(I)
+            if pick == "isderef":
+                ops.append("isderef %d %s %s %s %s" % (r, rng.choice(B), g, p, sz))
+            else:
+                ops.append("q_deref %d %s %s" % (r, p, sz))
         elif pick == "selref":
             g = rng.choice(G); p = rng.choice(P); b = rng.choice(B)
             def arm():
@@ -836,8 +883,11 @@ def gen_case(rng, profile="model", params=None, opts=None):
             ops.append("bassume %d %s %d" % (r, rng.choice(B), rng.randrange(2)))
         elif pick == "havoc":
             v = rng.choice(I + B + P + (G if rng.random() < 0.3 else []))
+            if m2 and rng.random() < 0.4:
+                v = rng.choice(G)
             ops.append("havoc %d %s" % (r, v))
             if v in P: g_.pt[v] = None
+            if m2 and v in G: g_.inited.discard(v)
         elif pick in ("forget", "project"):
             allv = I + B + P + G
             vs = rng.sample(allv, rng.randint(1, min(3, len(allv)))) if pick == "forget" else \
